@@ -26,6 +26,29 @@ def cert : Array (List Item) :=
 
 theorem checkSafe_ok : checkSafe G 6 6 T cert = .ok () := checkSafe_ok_iff.mpr (by decide)
 
+/-- The LALR(1) item sets (canonical LR(1) sets merged by core, laid out along the emitted tables):
+the certificate for the full validator `check`. -/
+def certL : Array (List Item) :=
+ #[[⟨0,0,0⟩, ⟨1,0,0⟩, ⟨2,0,0⟩, ⟨2,0,1⟩, ⟨2,0,2⟩, ⟨3,0,0⟩, ⟨3,0,1⟩, ⟨3,0,2⟩, ⟨4,0,0⟩, ⟨5,0,0⟩,
+    ⟨6,0,0⟩, ⟨6,0,1⟩, ⟨6,0,2⟩, ⟨7,0,0⟩, ⟨7,0,1⟩, ⟨7,0,2⟩],
+   [⟨2,1,0⟩, ⟨2,1,1⟩, ⟨2,1,2⟩, ⟨8,0,5⟩, ⟨9,0,5⟩],
+   [⟨3,1,0⟩, ⟨3,1,1⟩, ⟨3,1,2⟩],
+   [⟨0,1,0⟩],
+   [⟨7,1,0⟩, ⟨7,1,1⟩, ⟨7,1,2⟩],
+   [⟨1,1,0⟩],
+   [⟨2,0,0⟩, ⟨2,0,1⟩, ⟨2,0,2⟩, ⟨3,0,0⟩, ⟨3,0,1⟩, ⟨3,0,2⟩, ⟨4,1,0⟩, ⟨6,1,0⟩, ⟨6,1,1⟩, ⟨6,1,2⟩],
+   [⟨8,1,5⟩],
+   [⟨2,2,0⟩, ⟨2,2,1⟩, ⟨2,2,2⟩],
+   [⟨3,2,0⟩, ⟨3,2,1⟩, ⟨3,2,2⟩],
+   [⟨6,2,0⟩, ⟨6,2,1⟩, ⟨6,2,2⟩],
+   [⟨2,3,0⟩, ⟨2,3,1⟩, ⟨2,3,2⟩]]
+
+theorem check_ok : check G 6 6 T certL = .ok () := check_ok_iff.mpr (by decide +kernel)
+
+theorem termB_okL : termB G T certL = true := by decide +kernel
+
+theorem recoveryOKL : recoveryOKB T certL.size = true := by decide +kernel
+
 theorem termB_ok : termB G T cert = true := by decide +kernel
 
 theorem recoveryOK : recoveryOKB T cert.size = true := by decide +kernel
